@@ -670,3 +670,41 @@ def sc_startup_burst(params, obs, save):
     obs['ups_late'] = len(up)
     obs['pool_state'] = pool._state
     save()
+
+
+def sc_death_after_close(params, obs, save):
+    """a worker dies mid-task after close(): the loss must still be reported
+    (by the result handler's shutdown loop) and join() must return"""
+    hb = Heartbeat()
+    up = []
+    pool = _mkpool(params, up)
+    T = params['T_job']
+    cbs = {}
+    gate = os.path.join(os.environ.get('VERIF_WORKDIR', '/tmp'), 'gate-%d' % os.getpid())
+    h = pool.apply_async(tasks.t_selfkill, ('victim', params['how'], 'mid', params.get('delay', 1.0)),
+                         lost_worker_timeout=T, accept_callback=_stamp_cb(cbs, 'accept'))
+    others = [pool.apply_async(tasks.t_value, ('other.%d' % i, 0.2), lost_worker_timeout=T)
+              for i in range(params.get('others', 0))]
+    _wait_for(lambda: 'accept' in cbs, 10)
+    obs['accepted'] = 'accept' in cbs
+    log('close_call')
+    pool.close()
+    joined = threading.Event()
+
+    def do_join():
+        pool.join()
+        joined.set()
+    th = threading.Thread(target=do_join, daemon=True)
+    t0 = time.monotonic()
+    th.start()
+    _wait_for(lambda: h.ready(), T + 25)
+    obs['t_resolved'] = time.monotonic()
+    obs['outcome'] = _outcome(lambda: h.get(0)) if h.ready() else ['unresolved']
+    obs['others'] = [_outcome(lambda o=o: o.get(15)) for o in others]
+    joined.wait(40)
+    obs['join_returned'] = joined.is_set()
+    obs['join_wall'] = time.monotonic() - t0
+    obs['job_id'] = h._job
+    obs['worst_stall'] = hb.stop()
+    save()
+    pool.terminate()
